@@ -183,10 +183,21 @@ def run_rule(ctx, rule_name):
             judge(ctx, rule_name, r, m, rank, tuple(cur), cand, element)
             ctx.distinct((rule_name, tuple(cur), cand, "stateful"))
             emlkit.discard(fresh, probe)
-            # edit: insert at the suggested place, or remove one or two children
-            if isinstance(got, int) and ctx.rng.random() < 0.5 and 0 <= got <= len(cur):
+            # edit: insert at the suggested place, reorder, rename, or remove one or two children
+            k_ = ctx.rng.random()
+            if isinstance(got, int) and k_ < 0.4 and 0 <= got <= len(cur):
                 parent.add_child(Node(cand), got)
                 cur.insert(got, cand)
+            elif k_ < 0.6 and len(cur) >= 2:
+                from metapype.model.node import Shift
+                i = ctx.rng.randrange(len(cur))
+                right, sib = ctx.rng.random() < 0.5, ctx.rng.random() < 0.5
+                parent.shift(parent.children[i], Shift.RIGHT if right else Shift.LEFT, sib=sib)
+                cur[:] = [c.name for c in parent.children]
+            elif k_ < 0.7 and cur:
+                i = ctx.rng.randrange(len(cur))
+                parent.children[i].name = ctx.rng.choice(names)
+                cur[i] = parent.children[i].name
             elif cur:
                 for _k in range(ctx.rng.choice([1, 2])):
                     if cur:
@@ -194,6 +205,17 @@ def run_rule(ctx, rule_name):
                         parent.remove_child(parent.children[i])
                         del cur[i]
         emlkit.discard(parent)
+    # the allowed-child query once more, after all the index queries (which must not have taught the rule any new names)
+    for a in ["verifForeignElement", "Title", ""] + [x for x in near if x not in names][:6]:
+        ctx.evaluated()
+        try:
+            says = mrule.Rule(rule_name).is_allowed_child(a)
+        except Exception:
+            continue
+        ctx.count("allowed_requeried_after_index_queries")
+        if bool(says) != (a in live):
+            ctx.violation("is_allowed_child-changes-after-index-queries", f"{rule_name}.is_allowed_child({a!r}) = {says!r} after child_insert_index was "
+                                                                          f"asked about foreign names", {"rule": rule_name, "allowed_query": a})
     ctx.cover.setdefault("cases_per_rule", {})[rule_name] = n
 
 
